@@ -779,6 +779,11 @@ func (g *Gen) forStmt() Stmt {
 			elemT = tStr
 		case 3:
 			f.Iter = &IntLit{V: n}
+			if g.chance(1, 3) {
+				// ranging over a negative int: |n| iterations, positions count up, values count down
+				f.Iter = &Prefix{Op: "-", X: &IntLit{V: n}}
+				g.feat("range-negative-int")
+			}
 		case 4:
 			f.Iter = g.iterExpr(tListStr)
 			elemT = tStr
